@@ -25,6 +25,13 @@ def cases(tier):
         L.append(tv_case('C10', fx))
         L.append(fsm_case('C10', fx, 'copy_update', ['P_C10', 'ENTRY=15', 'CB_BUDGET=%d' % (0 if tier == 'quick' else 1), 'CB_KINDS=0x0e'], timeout=1200 * T, witness=True,
                           unwind_extra=[(r'vf_plan_|PlanT|CPlanT|updatePlan', 5), (r'^main\.', 50)]))
+    # (2b) plans with and without payloads outstanding at the moment of the copy: same plan contents, same requests and payloads
+    # from the plan executor (update() minus processRequest())
+    for fam in (['f5'] if tier == 'quick' else ['f5', 'fp3']):
+        o = dict(sublimit=2, features=['PLANS'], taskcap=3, payload='u32', callbacks=['life', 'update1', 'select', 'plan'], act=['update'], kinds=0)
+        fx = fixture('C10', fam, o, tag='copy_pl')
+        L.append(fsm_case('C10', fx, 'copy_plans', ['P_C10', 'ENTRY=21', 'CB_BUDGET=0', 'CB_KINDS=0'], timeout=900 * T, witness=True,
+                          unwind_extra=[(r'clearTasks', fx['T'].ns + 2), (r'vf_plan_|PlanT|CPlanT|updatePlan', 5), (r'^main\.', 50)]))
     return L
 
 def run(tier, seed):
